@@ -772,6 +772,7 @@ enum Act {
     SetIdx(usize, i64),
     SetViaCoeffs(usize, i64),
     Push(i64),
+    TrimPush0Trim,
     Pop,
     Trim,
 }
@@ -1253,11 +1254,16 @@ impl mc::bfs::Sut for St {
         if n < 6 {
             a.push(Act::Push(1));
             a.push(Act::Push(-1));
+            // a zero pushed through coeffs(): the next trim() has something to remove (a remembered "already trimmed" must not survive the handle)
+            a.push(Act::Push(0));
         }
         if n > 2 {
             a.push(Act::Pop);
         }
         a.push(Act::Trim);
+        // trim() of a trimmed polynomial changes nothing observable, so the search (which merges states of equal content) never goes on from
+        // it: the history "trim, push a zero through coeffs(), trim" as one transition (round 16)
+        a.push(Act::TrimPush0Trim);
         a
     }
     fn warm(&self) {
@@ -1290,6 +1296,19 @@ impl mc::bfs::Sut for St {
                 self.p.coeffs().pop();
                 self.pr.coeffs().pop();
                 self.m.pop();
+            }
+            Act::TrimPush0Trim => {
+                for _ in 0..2 {
+                    self.p.trim();
+                    self.pr.trim();
+                    while self.m.len() > 1 && *self.m.last().unwrap() == 0.0 {
+                        self.m.pop();
+                    }
+                    self.p.coeffs().push(Cmplx::new(0.0, 0.0));
+                    self.pr.coeffs().push(0.0);
+                    self.p.trim();
+                    self.pr.trim();
+                }
             }
             Act::Trim => {
                 self.p.trim();
